@@ -1520,3 +1520,59 @@ Proof.
   - destruct (step env st o) as [st1 rc1|] eqn:Es; [|discriminate].
     apply (IH st1 st' rc); [|exact H]. eapply step_effs; eauto.
 Qed.
+
+(* ------------------------------------------------------------------ *)
+(* statements used verbatim by Props/Properties_C15.v *)
+
+Lemma history_inv_init : forall h st rc, run init_state h = Fine st rc -> Inv (ghost [] h) st.
+Proof. intros h st rc H. apply (run_inv_all h [] init_state st rc init_inv H). Qed.
+
+Lemma history_stale_free_init : forall h, stale_free false h = true -> run init_state h <> Fatal F_STALE.
+Proof. intros h H. apply (run_stale_free h init_state false); [intros _; constructor|exact H]. Qed.
+
+Lemma history_no_ub_init : forall h, no_xml h -> (length h <= 29)%nat -> run init_state h <> Fatal F_UB.
+Proof.
+  intros h Hx Hl. apply run_no_ub; [exact Hx|].
+  change (N.of_nat (length (kinds init_state)) + 1)%N with 1%N. rewrite N.mul_1_l.
+  apply N.pow_le_mono_r; [discriminate|lia].
+Qed.
+
+Lemma get_by_cpuset_spec : forall regs st q,
+  Inv regs st -> bs_is_empty q = false ->
+  match get_by_cpuset st (Some q) 0%N with
+  | G_OK j => exists k, nth_error (kinds st) j = Some k /\ bs_subset q (k_cpuset k) = true
+  | G_EXDEV => (forall k, In k (kinds st) -> bs_subset q (k_cpuset k) = false) /\
+               (exists k, In k (kinds st) /\ bs_intersects q (k_cpuset k) = true)
+  | G_ENOENT => forall k, In k (kinds st) -> bs_intersects q (k_cpuset k) = false
+  | G_EINVAL => False
+  end.
+Proof.
+  intros regs st q HI Hq. unfold get_by_cpuset. simpl. rewrite Hq.
+  destruct (Inv_partition regs st HI) as [P1 _].
+  pose proof (getby_loop_spec q (kinds st) 0 Hq) as G.
+  assert (H1 : Forall (fun k => bs_is_empty (k_cpuset k) = false) (kinds st)) by (apply Forall_forall; exact P1).
+  assert (H2 : forall p, (cnt (kinds st) p <= 1)%nat).
+  { intros p. rewrite (inv_part _ _ HI). destruct (registered regs p); simpl; auto. }
+  specialize (G H1 H2). destruct (getby_loop q (kinds st) 0); auto.
+  destruct G as [i [k [-> G]]]. exists k. exact G.
+Qed.
+
+Lemma get_by_cpuset_einval_spec : forall st q fl,
+  (fl <> 0%N \/ q = None \/ q = Some bs_empty) -> get_by_cpuset st q fl = G_EINVAL.
+Proof.
+  intros st q fl H. unfold get_by_cpuset. destruct (N.eqb_spec fl 0) as [->|Hf]; simpl; [|reflexivity].
+  destruct H as [H|[->| ->]]; [contradiction|reflexivity|reflexivity].
+Qed.
+
+Lemma history_effs_init : forall h st rc, run init_state h = Fine st rc -> ranked (kinds st) \/ unranked (kinds st).
+Proof.
+  intros h st rc H. apply (run_effs h init_state st rc); [|exact H].
+  left. intros [|i] k; discriminate.
+Qed.
+
+Lemma xml_reload_spec : forall env regs st st' rc,
+  Inv regs st -> xml_reload env st = Fine st' rc ->
+  kinds st' = rank_kinds env (map fresh (kinds st)) /\ Inv regs st'.
+Proof.
+  intros env regs st st' rc HI H. split; [eapply xml_reload_kinds; eauto|eapply xml_reload_inv; eauto].
+Qed.
